@@ -72,14 +72,16 @@ def spec_step(state, kind, arg, res):
     """state = None | (vec, meta); returns new state or 'BAD' when the result is not the one the spec gives"""
     if kind == "ins":
         return (arg, arg) if res == "ok" else (state if res == "err" else "BAD")
+    # C05 constrains what READS return.  The boolean a delete / metadata update reports ("something
+    # was removed" - each tier reports its own removal, so two racing deletes may both say true) is
+    # not a read of the document: it is left unconstrained here (C14 looks at what the server does
+    # with it).  Only the effect on the register matters.
     if kind == "um":
-        if state is None:
-            return state if res == "false" else "BAD"
-        return (state[0], arg) if res == "true" else "BAD"
+        if res == "true":
+            return None if state is None else (state[0], arg)
+        return state if res == "false" else "BAD"
     if kind == "del":
-        if state is None:
-            return None if res == "false" else "BAD"
-        return None if res == "true" else "BAD"
+        return None if res in ("true", "false") else "BAD"
     if kind == "bdel":
         return None
     if kind in ("q", "ea"):
